@@ -201,8 +201,8 @@ package kvql
 //
 // gbytes(x): the rendering of a GROUP BY value as bytes; gkN(a, k, v, n): the key built from the
 // first n GROUP BY values of plan a on the pair (k, v).
-//@ define gbytes(x Any) B = ite(isText(x), textOf(x), ite(isbool(x), ite(bval(x), "true", "false"), itoa(intof(x))))
-//@ define gbOK(x Any) Bool = (isText(x) || isbool(x) || isInt(x)) && blen(gbytes(x)) < 4294967296
+//@ define gbytes(x Any) B = ite(isText(x), textOf(x), ite(isbool(x), ite(bval(x), "true", "false"), ite(isFlt(x), ftoa(fltof(x)), itoa(intof(x)))))
+//@ define gbOK(x Any) Bool = (isText(x) || isbool(x) || isInt(x) || isFlt(x)) && blen(gbytes(x)) < 4294967296
 //@ specfun gkN(Int, B, B, Int) B
 //@ axiom gk_step(a *AggregatePlan, k B, v B, n Int): gkN(a, k, v, 0) == "" && (n > 0 ==> gkN(a, k, v, n) == cat(gkN(a, k, v, n - 1), enc(gbytes(evalv(a.GroupByFields[n - 1].Expr, k, v)))))
 //
@@ -213,6 +213,7 @@ package kvql
 //@   ensures[C09] text: isText(val) ==> err == nil && val(ret) == textOf(val)
 //@   ensures[C09] truth: isbool(val) ==> err == nil && val(ret) == ite(bval(val), "true", "false")
 //@   ensures[C09] decimal: isInt(val) ==> err == nil && val(ret) == itoa(intof(val))
+//@   ensures[C09] float: isFlt(val) ==> err == nil && val(ret) == ftoa(fltof(val))
 //
 //@ func (a *AggregatePlan) getAggrKey(key []byte, val []byte, ctx *ExecuteCtx) (gk string, err error)
 //@   props C09 C05
@@ -261,6 +262,13 @@ package kvql
 //@   use gk_inj3(gpart(a, 0, k1, v1), gpart(a, 1, k1, v1), gpart(a, 2, k1, v1), gpart(a, 0, k2, v2), gpart(a, 1, k2, v2), gpart(a, 2, k2, v2))
 //@   requires small(gpart(a, 0, k1, v1)) && small(gpart(a, 0, k2, v2)) && small(gpart(a, 1, k1, v1)) && small(gpart(a, 1, k2, v2)) && small(gpart(a, 2, k1, v1)) && small(gpart(a, 2, k2, v2)) && gkN(a, k1, v1, 3) == gkN(a, k2, v2, 3)
 //@   ensures gpart(a, 0, k1, v1) == gpart(a, 0, k2, v2) && gpart(a, 1, k1, v1) == gpart(a, 1, k2, v2) && gpart(a, 2, k1, v1) == gpart(a, 2, k2, v2)
+//
+// Equal renderings of values of one kind are equal values (decimal and %v renderings read back:
+// T-STD), so pairs with the same group key have equal GROUP BY values, column by column.
+//@ lemma render_inj(x Any, y Any)
+//@   props C09
+//@   requires gbytes(x) == gbytes(y)
+//@   ensures (isInt(x) && isInt(y) ==> intof(x) == intof(y)) && (isFlt(x) && isFlt(y) ==> fltof(x) == fltof(y)) && (isText(x) && isText(y) ==> textOf(x) == textOf(y)) && (isbool(x) && isbool(y) ==> bval(x) == bval(y))
 //
 // The batch form builds the same keys, pair by pair.
 //@ func (a *AggregatePlan) batchGetAggrKeys(chunk []KVPair, ctx *ExecuteCtx) (ret []string, err error)
